@@ -406,6 +406,7 @@ def judgeHist : P Verdict := do
       | _ => return .diverge s!"evaluate differs from the model on the initial tree at {showVec x}"
   let mut step := 0
   let mut inexact := false
+  let mut pending : Option String := none
   let mut nontrivial := false
   let mut everFaulted := false   -- C06 speaks about histories under a correct solver
   while (← peek?) == some ";" do
@@ -426,7 +427,7 @@ def judgeHist : P Verdict := do
       | none => tag "expected-panic"; return (if inexact then .inexact "values" else .ok)
       | some _ =>
         -- in a distillation history (tag C01) the step is a step of the builder: the builder panics on this network
-        return .propfail s!"[{if nfaults > 0 then "C11" else if htag == "C01" then "C01" else "C04"}] step {step} ({opname}) panicked on dimension-compatible arguments{if htag == "C01" then " (a step of afftree_from_layers on a dimension-consistent network)" else ""}{inSolver}"
+        return .propfail s!"[{if nfaults > 0 then "C11" else if htag == "C01" then "C01" else if htag == "C08" && opname == "reduce" then "C08" else "C04"}] step {step} ({opname}) panicked on dimension-compatible arguments{if htag == "C01" then " (a step of afftree_from_layers on a dimension-consistent network)" else ""}{inSolver}"
     let td' ← pTree
     let log ← pLog
     let trace ← pTrace
@@ -538,8 +539,23 @@ def judgeHist : P Verdict := do
     | _ => pure ()
     -- ---- correspondence with the model ----
     let (model, os) := modelStep tol n t op ⟨log, trace, 0, tol⟩
+    -- `is_edge_feasible` takes every edge out of arena slot 0 for feasible ("the root"); the model follows that for the
+    -- nodes of the operand, but it cannot know whether the slab hands slot 0 to a *new* node, which happens only when
+    -- slot 0 had been freed (trees grown upwards, whose former root was forwarded or removed). The effect is less
+    -- pruning; the property oracles above have run, the comparison with the model is skipped for such a step.
+    let slotZeroReused := !t.indices.contains 0 && t'.indices.contains 0 &&
+      ["compose1", "add", "sub", "mul", "div"].contains opname
+    if slotZeroReused then
+      tag "slot-zero-reused"
+      inexact := true
+    let model := if slotZeroReused then some t' else model
+    let os := if slotZeroReused then { os with missing := 0 } else os
     match model with
-    | none => return .diverge s!"step {step} ({opname}): model rejects the call, implementation completed"
+    | none =>
+      -- a disagreement with the model is remembered, not returned at once: the steps start from the implementation's
+      -- own tree, so the property oracles of the later steps (and the network oracle of C01) still run and can turn
+      -- the disagreement into a concrete failing input
+      if pending.isNone then pending := some s!"step {step} ({opname}): model rejects the call, implementation completed"
     | some mt =>
       -- ill-scaled data: where the code's float `contains` accepts a cached witness at the threshold and the exact
       -- one does not, the model asks the solver and the code does not; the answer it misses is "feasible"
@@ -547,7 +563,7 @@ def judgeHist : P Verdict := do
         inexact := true
         tag "contains-at-threshold"
       if os.missing > 0 && !illScaled t' then
-        return .diverge s!"step {step} ({opname}): the model asked {os.missing} LP question(s) the implementation did not ask"
+        if pending.isNone then pending := some s!"step {step} ({opname}): the model asked {os.missing} LP question(s) the implementation did not ask"
       -- indices of the nodes of the operand that survive in the model result must be kept; the slab may
       -- hand the index of a removed node to a new node, so all other indices are only required to be fresh
       match treeCmp (t.indices.filter (fun i => mt.indices.contains i)) true mt t' with
@@ -566,7 +582,7 @@ def judgeHist : P Verdict := do
           inexact := true
           tag "state-at-threshold"
         else
-        return .diverge s!"step {step} ({opname}): model tree differs from the implementation's tree (structure, maps, states or kept indices) MODEL {showTree mt} IMPL {showTree t'} BEFORE {showTree t}"
+        if pending.isNone then pending := some s!"step {step} ({opname}): model tree differs from the implementation's tree (structure, maps, states or kept indices) MODEL {showTree mt} IMPL {showTree t'} BEFORE {showTree t}"
     t := t'
     evPrev := ev'
     step := step + 1
@@ -616,6 +632,7 @@ def judgeHist : P Verdict := do
           else return .propfail s!"[C01] at input {showVec x} the network gives {showOptVec want} but the distilled tree evaluates to {showOptVec got}"
     if same != 1 then
       return .diverge "afftree_from_layers: the builder's tree differs from the step-by-step replay with the same public operations (the model of the builder is this sequence of steps)"
+  if let some d := pending then return .diverge d
   pure (if inexact then .inexact "values" else .ok)
 
 end AV.Judge
